@@ -1,6 +1,1425 @@
-//! C11 rig (see DESIGN.md section 3/C11) - filled in by the C11 check.
-use crate::util::Args;
+//! C11 — registry bookkeeping: counters, indexes and reverse maps always match the instances.
+//!
+//! A stand-alone `NamingActor` (plain, or injected with a small `AppSysConfig` so that the health / instance
+//! time-outs are 3 s / 4 s and the actor's own 2 s timer runs) is driven by seeded histories of every writer the
+//! actor has (HTTP, gRPC, cluster sync, Raft, clean-up, time-outs). After EVERY operation the state is observed
+//! (a) through the public queries and (b) through the read-only `VerifNamingProbe` hook and the mirrors are compared
+//! with the instances themselves. The first drift of a history ends it; untimed histories are shrunk by re-running
+//! sub-sequences on fresh actors. The generator / rig / observation types are shared with C12 (`crate::c12`).
+use crate::util::{rng, Args, Report};
+use actix::prelude::*;
+use bean_factory::{BeanDefinition, BeanFactory};
+use rand::rngs::StdRng;
+use rand::Rng;
+use rnacos::common::AppSysConfig;
+use rnacos::naming::cluster::model::{ProcessRange, SnapshotForReceive};
+use rnacos::naming::core::{NamingActor, NamingCmd, NamingResult};
+use rnacos::naming::instance_meta_repository::InstanceMetaDto;
+use rnacos::naming::model::actor_model::{InstanceRegisterParam, NamingRaftReq};
+use rnacos::naming::model::{
+    DistroData, Instance, InstanceKey, InstanceShortKey, InstanceUpdateTag, ServiceDetailDto, ServiceKey,
+};
+use rnacos::naming::service_index::ServiceQueryParam;
+use rnacos::naming::verif_hooks::VerifNamingProbe;
+use serde::{Deserialize, Serialize};
+use serde_json::{json, Value};
+use std::collections::{BTreeMap, BTreeSet, HashMap, HashSet};
+use std::sync::Arc;
+use std::time::{Duration, Instant};
 
-pub fn run(_args: &Args) -> anyhow::Result<()> {
-    anyhow::bail!("not implemented")
+// ---------------------------------------------------------------- universe
+pub const NS: [&str; 2] = ["ns-a", "public"];
+pub const GROUPS: [&str; 2] = ["DEFAULT_GROUP", "g2"];
+pub const SVCS: [&str; 3] = ["svc0", "svc1", "svc2"];
+pub const ADDRS: [(&str, u32); 5] = [("10.0.0.1", 8080), ("10.0.0.1", 8081), ("10.0.0.2", 8080), ("10.0.0.3", 8080), ("10.0.0.4", 9000)];
+/// two connections of this node (raft node id 1) and two that were synchronised from node 2
+pub const CLIENTS: [&str; 4] = ["1_127.0.0.1:50001", "1_127.0.0.1:50002", "2_127.0.0.1:60001", "2_127.0.0.1:60002"];
+pub const HEALTH_TIMEOUT_MS: i64 = 3000;
+pub const INSTANCE_TIMEOUT_MS: i64 = 4000;
+
+#[derive(Clone, Copy, Debug, Serialize, Deserialize, PartialEq, Eq, PartialOrd, Ord)]
+pub struct Svc {
+    pub ns: usize,
+    pub g: usize,
+    pub s: usize,
+}
+
+impl Svc {
+    pub fn key(&self) -> ServiceKey {
+        ServiceKey::new(NS[self.ns], GROUPS[self.g], SVCS[self.s])
+    }
+    pub fn name(&self) -> (String, String, String) {
+        (NS[self.ns].to_string(), GROUPS[self.g].to_string(), SVCS[self.s].to_string())
+    }
+    pub fn all() -> Vec<Svc> {
+        let mut v = vec![];
+        for ns in 0..NS.len() {
+            for g in 0..GROUPS.len() {
+                for s in 0..SVCS.len() {
+                    v.push(Svc { ns, g, s });
+                }
+            }
+        }
+        v
+    }
+}
+
+#[derive(Clone, Debug, Serialize, Deserialize)]
+pub struct ISpec {
+    pub svc: Svc,
+    pub a: usize,
+    pub healthy: bool,
+    pub enabled: bool,
+    pub ephemeral: bool,
+    pub weight: f32,
+    pub meta: u8,
+    pub from_grpc: bool,
+    pub from_cluster: u64,
+    pub client: String,
+}
+
+impl ISpec {
+    pub fn addr(&self) -> (String, u32) {
+        (ADDRS[self.a].0.to_string(), ADDRS[self.a].1)
+    }
+}
+
+/// weight, metadata, enabled, ephemeral, from_update
+pub type Tag = Option<[bool; 5]>;
+
+pub fn mk_tag(t: &Tag) -> Option<InstanceUpdateTag> {
+    t.map(|t| InstanceUpdateTag { weight: t[0], metadata: t[1], enabled: t[2], ephemeral: t[3], from_update: t[4] })
+}
+
+pub fn meta_of(m: u8) -> HashMap<String, String> {
+    let mut h = HashMap::new();
+    if m >= 1 {
+        h.insert("v".to_string(), m.to_string());
+    }
+    if m >= 2 {
+        h.insert("zone".to_string(), "z".to_string());
+    }
+    h
+}
+
+pub fn mk_instance(i: &ISpec) -> Instance {
+    let mut inst = Instance::new(ADDRS[i.a].0.to_string(), ADDRS[i.a].1);
+    inst.namespace_id = Arc::new(NS[i.svc.ns].to_string());
+    inst.group_name = Arc::new(GROUPS[i.svc.g].to_string());
+    inst.service_name = Arc::new(SVCS[i.svc.s].to_string());
+    inst.healthy = i.healthy;
+    inst.enabled = i.enabled;
+    inst.ephemeral = i.ephemeral;
+    inst.weight = i.weight;
+    inst.metadata = Arc::new(meta_of(i.meta));
+    inst.from_grpc = i.from_grpc;
+    inst.from_cluster = i.from_cluster;
+    inst.client_id = Arc::new(i.client.clone());
+    inst.generate_key();
+    inst
+}
+
+pub fn mk_param(i: &ISpec) -> InstanceRegisterParam {
+    InstanceRegisterParam {
+        ip: Arc::new(ADDRS[i.a].0.to_string()),
+        port: ADDRS[i.a].1,
+        weight: i.weight,
+        enabled: i.enabled,
+        healthy: i.healthy,
+        ephemeral: i.ephemeral,
+        metadata: Arc::new(meta_of(i.meta)),
+        namespace_id: Arc::new(NS[i.svc.ns].to_string()),
+        group_name: Arc::new(GROUPS[i.svc.g].to_string()),
+        service_name: Arc::new(SVCS[i.svc.s].to_string()),
+        cluster_name: None,
+        app_name: None,
+        last_modified_millis: crate::util::now_ms() as i64,
+    }
+}
+
+pub fn mk_ikey(svc: &Svc, a: usize) -> InstanceKey {
+    InstanceKey::new_by_service_key(&svc.key(), Arc::new(ADDRS[a].0.to_string()), ADDRS[a].1)
+}
+
+#[derive(Clone, Debug, Serialize, Deserialize)]
+pub enum Op {
+    /// NamingCmd::Update — HTTP (from_grpc=false), gRPC (from_grpc, client) or a routed cluster write (from_cluster>0)
+    Update { inst: ISpec, tag: Tag },
+    UpdateFromSync { inst: ISpec, tag: Tag },
+    UpdateBatch { insts: Vec<ISpec> },
+    RaftRegister { inst: ISpec },
+    RaftUpdate { inst: ISpec },
+    RaftRemove { svc: Svc, a: usize },
+    Delete { inst: ISpec },
+    DeleteBatch { insts: Vec<ISpec> },
+    RemoveClient { client: String },
+    RemoveClientFromCluster { client: String },
+    RemoveClientsFromCluster { clients: Vec<String> },
+    ReceiveSnapshot { services: Vec<(Svc, Option<f32>)>, insts: Vec<ISpec> },
+    RefreshRange { index: usize, len: usize },
+    DiffDistro { cluster_id: u64, data: Vec<(String, Vec<(Svc, usize)>)> },
+    Sniff { a: usize, services: Vec<Svc>, success: bool },
+    UpdateService { svc: Svc, threshold: Option<f32>, from_cluster: bool },
+    RemoveService { svc: Svc },
+    InitMeta { svc: Svc, addrs: Vec<usize> },
+    Peek,
+    Sleep { ms: u64 },
+}
+
+impl Op {
+    pub fn kind(&self) -> String {
+        match self {
+            Op::Update { inst, tag } => {
+                let origin = if inst.from_cluster > 0 {
+                    "routed"
+                } else if inst.from_grpc {
+                    "grpc"
+                } else {
+                    "http"
+                };
+                format!("update-{}{}", origin, tag_class(tag))
+            }
+            Op::UpdateFromSync { tag, .. } => format!("update-sync{}", tag_class(tag)),
+            Op::UpdateBatch { .. } => "update-batch".into(),
+            Op::RaftRegister { .. } => "raft-register".into(),
+            Op::RaftUpdate { .. } => "raft-update".into(),
+            Op::RaftRemove { .. } => "raft-remove".into(),
+            Op::Delete { .. } => "delete".into(),
+            Op::DeleteBatch { .. } => "delete-batch".into(),
+            Op::RemoveClient { .. } => "remove-client".into(),
+            Op::RemoveClientFromCluster { .. } => "remove-client-from-cluster".into(),
+            Op::RemoveClientsFromCluster { .. } => "remove-clients-from-cluster".into(),
+            Op::ReceiveSnapshot { .. } => "receive-snapshot".into(),
+            Op::RefreshRange { .. } => "refresh-range".into(),
+            Op::DiffDistro { .. } => "diff-distro".into(),
+            Op::Sniff { success, .. } => format!("sniff-{}", if *success { "up" } else { "down" }),
+            Op::UpdateService { .. } => "update-service".into(),
+            Op::RemoveService { .. } => "remove-service".into(),
+            Op::InitMeta { .. } => "init-meta".into(),
+            Op::Peek => "peek-timeout".into(),
+            Op::Sleep { .. } => "sleep+timer".into(),
+        }
+    }
+    /// the single instance key an operation is aimed at (None for multi-target operations)
+    pub fn target(&self) -> Option<(Svc, usize)> {
+        match self {
+            Op::Update { inst, .. } | Op::UpdateFromSync { inst, .. } | Op::RaftRegister { inst } | Op::RaftUpdate { inst } | Op::Delete { inst } => {
+                Some((inst.svc, inst.a))
+            }
+            Op::RaftRemove { svc, a } => Some((*svc, *a)),
+            _ => None,
+        }
+    }
+}
+
+fn tag_class(t: &Tag) -> &'static str {
+    match t {
+        None => "",
+        Some(t) if !t[0] && !t[1] && !t[2] && !t[3] => "/beat",
+        Some(t) if t[4] => "/tag-console",
+        Some(_) => "/tag",
+    }
+}
+
+// ---------------------------------------------------------------- rig
+pub struct Rig {
+    pub addr: Addr<NamingActor>,
+    pub timed: bool,
+    pub t0: Instant,
+}
+
+impl Rig {
+    /// `timed`: inject an AppSysConfig (health 0 s + 3 s, instance 1 s + 3 s, node id 1) through a BeanFactory exactly as
+    /// starter.rs does; this also starts the actor's own 2 s timer (empty-service clean-up, PeekListenerTimeout).
+    pub async fn new(timed: bool) -> Rig {
+        let addr = NamingActor::new().start();
+        if timed {
+            let mut cfg = AppSysConfig::default();
+            cfg.naming_health_timeout = 0;
+            cfg.naming_instance_timeout = 1000;
+            cfg.raft_node_id = 1;
+            cfg.naming_perpetual_instance_probe_interval = 0;
+            let factory = BeanFactory::new();
+            factory.register(BeanDefinition::from_obj(Arc::new(cfg)));
+            factory.register(BeanDefinition::actor_with_inject_from_obj(addr.clone()));
+            factory.init().await;
+            // the inject message is delivered asynchronously; one round trip makes sure it was handled
+            let _ = addr.send(NamingCmd::QueryClientInstanceCount).await;
+            tokio::time::sleep(Duration::from_millis(20)).await;
+        }
+        Rig { addr, timed, t0: Instant::now() }
+    }
+
+    pub async fn cmd(&self, c: NamingCmd) -> anyhow::Result<NamingResult> {
+        match self.addr.send(c).await {
+            Ok(r) => r,
+            Err(e) => Err(anyhow::anyhow!("mailbox: {}", e)),
+        }
+    }
+
+    /// returns Err only for harness failures; a refusal by the actor (RemoveService on a non-empty service) is Ok(false)
+    pub async fn apply(&self, op: &Op) -> anyhow::Result<bool> {
+        let r = match op {
+            Op::Update { inst, tag } => self.cmd(NamingCmd::Update(mk_instance(inst), mk_tag(tag))).await,
+            Op::UpdateFromSync { inst, tag } => self.cmd(NamingCmd::UpdateFromSync(mk_instance(inst), mk_tag(tag))).await,
+            Op::UpdateBatch { insts } => self.cmd(NamingCmd::UpdateBatch(insts.iter().map(mk_instance).collect())).await,
+            Op::RaftRegister { inst } => {
+                return match self.addr.send(NamingRaftReq::RegisterInstance { param: mk_param(inst) }).await {
+                    Ok(r) => Ok(r.is_ok()),
+                    Err(e) => Err(anyhow::anyhow!("mailbox: {}", e)),
+                }
+            }
+            Op::RaftUpdate { inst } => {
+                return match self.addr.send(NamingRaftReq::UpdateInstance { param: mk_param(inst) }).await {
+                    Ok(r) => Ok(r.is_ok()),
+                    Err(e) => Err(anyhow::anyhow!("mailbox: {}", e)),
+                }
+            }
+            Op::RaftRemove { svc, a } => {
+                return match self.addr.send(NamingRaftReq::RemoveInstance(mk_ikey(svc, *a))).await {
+                    Ok(r) => Ok(r.is_ok()),
+                    Err(e) => Err(anyhow::anyhow!("mailbox: {}", e)),
+                }
+            }
+            Op::Delete { inst } => self.cmd(NamingCmd::Delete(mk_instance(inst))).await,
+            Op::DeleteBatch { insts } => self.cmd(NamingCmd::DeleteBatch(insts.iter().map(mk_instance).collect())).await,
+            Op::RemoveClient { client } => self.cmd(NamingCmd::RemoveClient(Arc::new(client.clone()))).await,
+            Op::RemoveClientFromCluster { client } => self.cmd(NamingCmd::RemoveClientFromCluster(Arc::new(client.clone()))).await,
+            Op::RemoveClientsFromCluster { clients } => {
+                self.cmd(NamingCmd::RemoveClientsFromCluster(clients.iter().map(|c| Arc::new(c.clone())).collect())).await
+            }
+            Op::ReceiveSnapshot { services, insts } => {
+                let services = services
+                    .iter()
+                    .map(|(s, th)| ServiceDetailDto {
+                        namespace_id: Arc::new(NS[s.ns].to_string()),
+                        group_name: Arc::new(GROUPS[s.g].to_string()),
+                        service_name: Arc::new(SVCS[s.s].to_string()),
+                        metadata: None,
+                        protect_threshold: *th,
+                        grpc_instance_count: None,
+                    })
+                    .collect();
+                self.cmd(NamingCmd::ReceiveSnapshot(SnapshotForReceive { route_index: 0, node_count: 0, services, instances: insts.iter().map(mk_instance).collect() })).await
+            }
+            Op::RefreshRange { index, len } => self.cmd(NamingCmd::ClusterRefreshProcessRange(ProcessRange::new(*index, *len))).await,
+            Op::DiffDistro { cluster_id, data } => {
+                let mut m: HashMap<Arc<String>, HashSet<InstanceKey>> = HashMap::new();
+                for (c, keys) in data {
+                    m.insert(Arc::new(c.clone()), keys.iter().map(|(s, a)| mk_ikey(s, *a)).collect());
+                }
+                self.cmd(NamingCmd::DiffGrpcDistroData { cluster_id: *cluster_id, data: DistroData::ClientInstances(m) }).await
+            }
+            Op::Sniff { a, services, success } => {
+                self.cmd(NamingCmd::PerpetualHostSniffing {
+                    host: InstanceShortKey::new(Arc::new(ADDRS[*a].0.to_string()), ADDRS[*a].1),
+                    service_keys: services.iter().map(|s| s.key()).collect(),
+                    success: *success,
+                })
+                .await
+            }
+            Op::UpdateService { svc, threshold, from_cluster } => {
+                let d = ServiceDetailDto {
+                    namespace_id: Arc::new(NS[svc.ns].to_string()),
+                    group_name: Arc::new(GROUPS[svc.g].to_string()),
+                    service_name: Arc::new(SVCS[svc.s].to_string()),
+                    metadata: None,
+                    protect_threshold: *threshold,
+                    grpc_instance_count: None,
+                };
+                if *from_cluster {
+                    self.cmd(NamingCmd::UpdateServiceFromCluster(d)).await
+                } else {
+                    self.cmd(NamingCmd::UpdateService(d)).await
+                }
+            }
+            Op::RemoveService { svc } => {
+                // an Err answer ("The service has instances") is the actor refusing, not a harness failure
+                return match self.addr.send(NamingCmd::RemoveService(svc.key())).await {
+                    Ok(r) => Ok(r.is_ok()),
+                    Err(e) => Err(anyhow::anyhow!("mailbox: {}", e)),
+                };
+            }
+            Op::InitMeta { svc, addrs } => {
+                let recs = addrs
+                    .iter()
+                    .map(|a| InstanceMetaDto::new(svc.key(), InstanceShortKey::new(Arc::new(ADDRS[*a].0.to_string()), ADDRS[*a].1), Arc::new(meta_of(2))))
+                    .collect();
+                self.cmd(NamingCmd::InitInstanceMeta(svc.key(), recs)).await
+            }
+            Op::Peek => self.cmd(NamingCmd::PeekListenerTimeout).await,
+            Op::Sleep { ms } => {
+                tokio::time::sleep(Duration::from_millis(*ms)).await;
+                return Ok(true);
+            }
+        };
+        r.map(|_| true)
+    }
+}
+
+// ---------------------------------------------------------------- observation
+#[derive(Clone, Debug, Default)]
+pub struct PInst {
+    pub healthy: bool,
+    pub enabled: bool,
+    pub ephemeral: bool,
+    pub from_grpc: bool,
+    pub from_cluster: u64,
+    pub client: String,
+    pub last_modified: i64,
+    pub weight: f32,
+}
+
+impl PInst {
+    pub fn class(&self) -> String {
+        format!(
+            "{}-{}-{}",
+            if self.healthy { "healthy" } else { "unhealthy" },
+            if self.ephemeral { "ephemeral" } else { "persistent" },
+            match (self.from_grpc, self.from_cluster > 0) {
+                (false, false) => "http",
+                (true, false) => "grpc",
+                (true, true) => "cluster-grpc",
+                (false, true) => "cluster-http",
+            }
+        )
+    }
+    pub fn timeout_enabled(&self) -> bool {
+        self.ephemeral && !self.from_grpc && self.from_cluster == 0
+    }
+}
+
+type SKey = (String, String, String);
+type AKey = (String, u32);
+
+#[derive(Clone, Debug, Default)]
+pub struct PSvc {
+    pub instance_size: i64,
+    pub healthy_size: i64,
+    pub insts: BTreeMap<AKey, PInst>,
+    pub perpetual: BTreeSet<String>,
+    pub healthy_timeout_len: u64,
+    pub unhealthy_timeout_len: u64,
+}
+
+#[derive(Clone, Debug, Default)]
+pub struct Obs {
+    pub t_ms: i64,
+    pub retries: u32,
+    // probe
+    pub services: BTreeMap<SKey, PSvc>,
+    pub index: Vec<SKey>,
+    pub index_size: u64,
+    pub clients: BTreeMap<String, Vec<(SKey, AKey)>>,
+    pub empty_set_len: u64,
+    // public queries
+    pub info: BTreeMap<String, (usize, Vec<(String, String, i64, i64)>)>,
+    pub all: BTreeMap<SKey, BTreeMap<AKey, PInst>>,
+    pub all_dups: Vec<(SKey, AKey)>,
+    pub pages: BTreeMap<(String, String), (usize, Vec<String>)>,
+    pub phantom_listed: Vec<SKey>,
+    pub client_counts: Vec<(String, usize)>,
+}
+
+fn s(v: &Value) -> String {
+    v.as_str().unwrap_or("").to_string()
+}
+
+pub fn pinst_of(i: &Instance) -> PInst {
+    PInst {
+        healthy: i.healthy,
+        enabled: i.enabled,
+        ephemeral: i.ephemeral,
+        from_grpc: i.from_grpc,
+        from_cluster: i.from_cluster,
+        client: i.client_id.as_ref().clone(),
+        last_modified: i.last_modified_millis,
+        weight: i.weight,
+    }
+}
+
+/// One observation = probe + ~25 public queries, each a separate message. On a timed rig the actor's own 2 s timer may run
+/// between two of them; the probe is therefore taken again at the end and the whole observation is repeated when the two
+/// probes differ, so that all parts of an accepted observation describe the same state.
+pub async fn observe(rig: &Rig) -> anyhow::Result<Obs> {
+    for attempt in 0..8 {
+        let (o, p1) = observe_once(rig).await?;
+        if !rig.timed {
+            return Ok(o);
+        }
+        let p2: Value = rig.addr.send(VerifNamingProbe).await.map_err(|e| anyhow::anyhow!("mailbox: {}", e))?;
+        if p1 == p2 {
+            let mut o = o;
+            o.retries = attempt;
+            return Ok(o);
+        }
+    }
+    Err(anyhow::anyhow!("no stable observation in 8 attempts (timer kept interleaving)"))
+}
+
+async fn observe_once(rig: &Rig) -> anyhow::Result<(Obs, Value)> {
+    let mut o = Obs { t_ms: crate::util::now_ms() as i64, ..Default::default() };
+    let p: Value = rig.addr.send(VerifNamingProbe).await.map_err(|e| anyhow::anyhow!("mailbox: {}", e))?;
+    for sv in p["services"].as_array().cloned().unwrap_or_default() {
+        let key = (s(&sv["namespace"]), s(&sv["group"]), s(&sv["service"]));
+        let mut ps = PSvc {
+            instance_size: sv["instance_size"].as_i64().unwrap_or(i64::MIN),
+            healthy_size: sv["healthy_instance_size"].as_i64().unwrap_or(i64::MIN),
+            healthy_timeout_len: sv["healthy_timeout_set_len"].as_u64().unwrap_or(0),
+            unhealthy_timeout_len: sv["unhealthy_timeout_set_len"].as_u64().unwrap_or(0),
+            ..Default::default()
+        };
+        for i in sv["instances"].as_array().cloned().unwrap_or_default() {
+            ps.insts.insert(
+                (s(&i["ip"]), i["port"].as_u64().unwrap_or(0) as u32),
+                PInst {
+                    healthy: i["healthy"].as_bool().unwrap_or(false),
+                    enabled: i["enabled"].as_bool().unwrap_or(false),
+                    ephemeral: i["ephemeral"].as_bool().unwrap_or(false),
+                    from_grpc: i["from_grpc"].as_bool().unwrap_or(false),
+                    from_cluster: i["from_cluster"].as_u64().unwrap_or(0),
+                    client: s(&i["client_id"]),
+                    last_modified: i["last_modified_millis"].as_i64().unwrap_or(0),
+                    weight: 0.0,
+                },
+            );
+        }
+        for h in sv["perpetual_host_set"].as_array().cloned().unwrap_or_default() {
+            ps.perpetual.insert(s(&h));
+        }
+        o.services.insert(key, ps);
+    }
+    for e in p["namespace_index"].as_array().cloned().unwrap_or_default() {
+        o.index.push((s(&e[0]), s(&e[1]), s(&e[2])));
+    }
+    o.index_size = p["namespace_index_service_size"].as_u64().unwrap_or(u64::MAX);
+    o.empty_set_len = p["empty_service_set_len"].as_u64().unwrap_or(0);
+    for c in p["client_instance_set"].as_array().cloned().unwrap_or_default() {
+        let mut l = vec![];
+        for k in c["instances"].as_array().cloned().unwrap_or_default() {
+            l.push(((s(&k["namespace"]), s(&k["group"]), s(&k["service"])), (s(&k["ip"]), k["port"].as_u64().unwrap_or(0) as u32)));
+        }
+        o.clients.insert(s(&c["client_id"]), l);
+    }
+    // ---- public queries
+    for ns in NS.iter() {
+        let param = ServiceQueryParam { namespace_id: Some(Arc::new(ns.to_string())), offset: 0, limit: 100_000, ..Default::default() };
+        if let NamingResult::ServiceInfoPage((size, list)) = rig.cmd(NamingCmd::QueryServiceInfoPage(param)).await? {
+            let l = list.iter().map(|d| (d.group_name.as_ref().clone(), d.service_name.as_ref().clone(), d.instance_size, d.healthy_instance_size)).collect();
+            o.info.insert(ns.to_string(), (size, l));
+        }
+        for g in GROUPS.iter() {
+            if let NamingResult::ServicePage((size, names)) = rig.cmd(NamingCmd::QueryServicePage(ServiceKey::new(ns, g, ""), 100_000, 1)).await? {
+                let names: Vec<String> = names.iter().map(|n| n.as_ref().clone()).collect();
+                for n in &names {
+                    if let NamingResult::ServiceDto(None) = rig.cmd(NamingCmd::QueryServiceOnly(ServiceKey::new(ns, g, n))).await? {
+                        o.phantom_listed.push((ns.to_string(), g.to_string(), n.clone()));
+                    }
+                }
+                o.pages.insert((ns.to_string(), g.to_string()), (size, names));
+            }
+        }
+    }
+    for sv in Svc::all() {
+        if let NamingResult::InstanceList(list) = rig.cmd(NamingCmd::QueryAllInstanceList(sv.key())).await? {
+            let mut m = BTreeMap::new();
+            for i in list {
+                let k = (i.ip.as_ref().clone(), i.port);
+                if m.insert(k.clone(), pinst_of(&i)).is_some() {
+                    o.all_dups.push((sv.name(), k));
+                }
+            }
+            o.all.insert(sv.name(), m);
+        }
+    }
+    if let NamingResult::ClientInstanceCount(l) = rig.cmd(NamingCmd::QueryClientInstanceCount).await? {
+        o.client_counts = l.into_iter().map(|(c, n)| (c.as_ref().clone(), n)).collect();
+    }
+    Ok((o, p))
+}
+
+// ---------------------------------------------------------------- oracle
+pub struct Finding {
+    pub mirror: &'static str,
+    pub dir: &'static str,
+    pub svc: Option<SKey>,
+    pub detail: Value,
+}
+
+fn hi_lo(counter: i64, real: i64) -> &'static str {
+    if counter > real {
+        "counter-high"
+    } else {
+        "counter-low"
+    }
+}
+
+pub fn check(prev: Option<&Obs>, cur: &Obs) -> Vec<Finding> {
+    let mut f = vec![];
+    // ---------- a service that vanished although its last observation had instances explains every other drift of this step: first
+    if let Some(prev) = prev {
+        // two observations are at most a few seconds apart, emptying a service and dropping it needs 30 s (or two operations)
+        for (k, ps) in &prev.services {
+            if !ps.insts.is_empty() && !cur.services.contains_key(k) {
+                f.push(Finding { mirror: "service-drop", dir: "dropped-while-it-had-instances", svc: Some(k.clone()), detail: json!({"service": k, "instances_at_last_observation": ps.insts.len(), "ms_since_last_observation": cur.t_ms - prev.t_ms}) });
+            }
+        }
+    }
+    // ---------- (a) public queries
+    for (ns, (size, list)) in &cur.info {
+        if *size != list.len() {
+            f.push(Finding { mirror: "public/service-info-page", dir: "total-differs-from-rows", svc: None, detail: json!({"namespace": ns, "total": size, "rows": list.len()}) });
+        }
+        let mut seen: BTreeMap<(String, String), u32> = BTreeMap::new();
+        for (g, name, isz, hsz) in list {
+            *seen.entry((g.clone(), name.clone())).or_insert(0) += 1;
+            let key = (ns.clone(), g.clone(), name.clone());
+            let all = cur.all.get(&key).cloned().unwrap_or_default();
+            let healthy = all.values().filter(|i| i.healthy).count() as i64;
+            if *isz != all.len() as i64 {
+                f.push(Finding { mirror: "public/instance_size", dir: hi_lo(*isz, all.len() as i64), svc: Some(key.clone()), detail: json!({"service": key, "reported": isz, "QueryAllInstanceList": all.len()}) });
+            }
+            if *hsz != healthy {
+                f.push(Finding { mirror: "public/healthy_instance_size", dir: hi_lo(*hsz, healthy), svc: Some(key.clone()), detail: json!({"service": key, "reported": hsz, "healthy_returned": healthy, "returned": all.len()}) });
+            }
+        }
+        for ((g, name), n) in &seen {
+            if *n > 1 {
+                f.push(Finding { mirror: "public/service-info-page", dir: "listed-twice", svc: Some((ns.clone(), g.clone(), name.clone())), detail: json!({"namespace": ns, "group": g, "service": name, "times": n}) });
+            }
+        }
+        for (key, all) in &cur.all {
+            if &key.0 == ns && !all.is_empty() && !seen.contains_key(&(key.1.clone(), key.2.clone())) {
+                f.push(Finding { mirror: "public/service-info-page", dir: "service-with-data-not-listed", svc: Some(key.clone()), detail: json!({"service": key, "instances": all.len()}) });
+            }
+        }
+    }
+    for ((ns, g), (size, names)) in &cur.pages {
+        let set: BTreeSet<&String> = names.iter().collect();
+        if set.len() != names.len() {
+            f.push(Finding { mirror: "public/service-page", dir: "listed-twice", svc: None, detail: json!({"namespace": ns, "group": g, "names": names}) });
+        }
+        if *size != names.len() {
+            f.push(Finding { mirror: "public/service-page", dir: "total-differs-from-rows", svc: None, detail: json!({"namespace": ns, "group": g, "total": size, "names": names}) });
+        }
+        for (key, all) in &cur.all {
+            if &key.0 == ns && &key.1 == g && !all.is_empty() && !set.contains(&key.2) {
+                f.push(Finding { mirror: "public/service-page", dir: "service-with-data-not-listed", svc: Some(key.clone()), detail: json!({"service": key, "instances": all.len(), "listed": names}) });
+            }
+        }
+    }
+    for k in &cur.phantom_listed {
+        f.push(Finding { mirror: "public/service-page", dir: "listed-but-nonexistent", svc: Some(k.clone()), detail: json!({"service": k}) });
+    }
+    for (k, a) in &cur.all_dups {
+        f.push(Finding { mirror: "public/instance-list", dir: "address-returned-twice", svc: Some(k.clone()), detail: json!({"service": k, "addr": a}) });
+    }
+    {
+        let mut carrying: BTreeMap<String, (usize, usize)> = BTreeMap::new(); // client -> (all with that id, grpc-owned with that id)
+        for all in cur.all.values() {
+            for i in all.values() {
+                if !i.client.is_empty() {
+                    let e = carrying.entry(i.client.clone()).or_insert((0, 0));
+                    e.0 += 1;
+                    if i.from_grpc {
+                        e.1 += 1;
+                    }
+                }
+            }
+        }
+        let counts: BTreeMap<String, usize> = cur.client_counts.iter().cloned().collect();
+        let mut ids: BTreeSet<String> = counts.keys().cloned().collect();
+        ids.extend(carrying.keys().cloned());
+        for c in ids {
+            let n = counts.get(&c).cloned().unwrap_or(0);
+            let (any, grpc) = carrying.get(&c).cloned().unwrap_or((0, 0));
+            if n > any {
+                f.push(Finding { mirror: "public/client-instance-count", dir: "counts-instances-that-do-not-carry-the-client", svc: None, detail: json!({"client": c, "QueryClientInstanceCount": n, "instances_with_client_id": any}) });
+            } else if n < grpc {
+                f.push(Finding { mirror: "public/client-instance-count", dir: "misses-grpc-owned-instances", svc: None, detail: json!({"client": c, "QueryClientInstanceCount": n, "grpc_instances_with_client_id": grpc}) });
+            }
+        }
+    }
+    // ---------- (b) probe
+    for (key, ps) in &cur.services {
+        let n = ps.insts.len() as i64;
+        let h = ps.insts.values().filter(|i| i.healthy).count() as i64;
+        if ps.instance_size != n {
+            f.push(Finding { mirror: "probe/instance_size", dir: hi_lo(ps.instance_size, n), svc: Some(key.clone()), detail: json!({"service": key, "instance_size": ps.instance_size, "instances": n}) });
+        }
+        if ps.healthy_size != h {
+            f.push(Finding { mirror: "probe/healthy_instance_size", dir: hi_lo(ps.healthy_size, h), svc: Some(key.clone()), detail: json!({"service": key, "healthy_instance_size": ps.healthy_size, "healthy_instances": h}) });
+        }
+        let non_eph: BTreeSet<String> = ps.insts.iter().filter(|(_, i)| !i.ephemeral).map(|(k, _)| format!("{}:{}", k.0, k.1)).collect();
+        if non_eph != ps.perpetual {
+            let extra: Vec<&String> = ps.perpetual.difference(&non_eph).collect();
+            let missing: Vec<&String> = non_eph.difference(&ps.perpetual).collect();
+            let dir = if !missing.is_empty() { "persistent-instance-not-in-set" } else { "set-has-non-persistent-or-absent-host" };
+            f.push(Finding { mirror: "probe/perpetual_host_set", dir, svc: Some(key.clone()), detail: json!({"service": key, "extra_in_set": extra, "missing_from_set": missing}) });
+        }
+    }
+    for (client, keys) in &cur.clients {
+        for (sk, ak) in keys {
+            match cur.services.get(sk).and_then(|p| p.insts.get(ak)) {
+                None => f.push(Finding { mirror: "probe/client_instance_set", dir: "entry-for-absent-instance", svc: Some(sk.clone()), detail: json!({"client": client, "service": sk, "addr": ak}) }),
+                Some(i) if &i.client != client => f.push(Finding { mirror: "probe/client_instance_set", dir: "entry-for-instance-of-another-client", svc: Some(sk.clone()), detail: json!({"client": client, "service": sk, "addr": ak, "instance_client": i.client}) }),
+                _ => {}
+            }
+        }
+    }
+    for (sk, ps) in &cur.services {
+        for (ak, i) in &ps.insts {
+            if i.from_grpc && !i.client.is_empty() {
+                let rec = cur.clients.get(&i.client).map(|l| l.iter().any(|(s2, a2)| s2 == sk && a2 == ak)).unwrap_or(false);
+                if !rec {
+                    f.push(Finding { mirror: "probe/client_instance_set", dir: "grpc-instance-not-recorded", svc: Some(sk.clone()), detail: json!({"client": i.client, "service": sk, "addr": ak}) });
+                }
+            }
+        }
+    }
+    {
+        let mut cnt: BTreeMap<&SKey, u32> = BTreeMap::new();
+        for e in &cur.index {
+            *cnt.entry(e).or_insert(0) += 1;
+        }
+        for (k, n) in &cnt {
+            if *n > 1 {
+                f.push(Finding { mirror: "probe/namespace_index", dir: "listed-twice", svc: Some((*k).clone()), detail: json!({"service": k, "times": n}) });
+            }
+            if !cur.services.contains_key(*k) {
+                f.push(Finding { mirror: "probe/namespace_index", dir: "listed-but-nonexistent", svc: Some((*k).clone()), detail: json!({"service": k}) });
+            }
+        }
+        for k in cur.services.keys() {
+            if !cnt.contains_key(k) {
+                f.push(Finding { mirror: "probe/namespace_index", dir: "service-not-listed", svc: Some(k.clone()), detail: json!({"service": k, "instances": cur.services[k].insts.len()}) });
+            }
+        }
+        if cur.index_size != cnt.len() as u64 {
+            f.push(Finding { mirror: "probe/namespace_index.service_size", dir: if cur.index_size > cnt.len() as u64 { "counter-high" } else { "counter-low" }, svc: None, detail: json!({"service_size": cur.index_size, "indexed": cnt.len()}) });
+        }
+    }
+    f
+}
+
+// ---------------------------------------------------------------- generator
+pub struct Gen {
+    pub r: StdRng,
+    pub hot: Vec<Svc>,
+    pub timed: bool,
+}
+
+impl Gen {
+    pub fn new(seed: u64, timed: bool) -> Gen {
+        let mut r = rng(seed);
+        let all = Svc::all();
+        let n_hot = r.gen_range(1..=4);
+        let hot = (0..n_hot).map(|_| all[r.gen_range(0..all.len())]).collect();
+        Gen { r, hot, timed }
+    }
+    pub fn svc(&mut self) -> Svc {
+        if self.r.gen_bool(0.75) {
+            self.hot[self.r.gen_range(0..self.hot.len())]
+        } else {
+            let all = Svc::all();
+            all[self.r.gen_range(0..all.len())]
+        }
+    }
+    fn addr(&mut self) -> usize {
+        // address 0..2 hot
+        if self.r.gen_bool(0.7) {
+            self.r.gen_range(0..3)
+        } else {
+            self.r.gen_range(0..ADDRS.len())
+        }
+    }
+    fn weight(&mut self) -> f32 {
+        *crate::util::pick(&mut self.r, &[1.0f32, 1.0, 0.5, 2.0, 10.0])
+    }
+    pub fn ispec(&mut self, origin: &str) -> ISpec {
+        let svc = self.svc();
+        let a = self.addr();
+        let (from_grpc, from_cluster, client) = match origin {
+            "http" => (false, 0, String::new()),
+            "grpc" => (true, 0, CLIENTS[self.r.gen_range(0..2)].to_string()),
+            "cluster-grpc" => (true, 2, CLIENTS[self.r.gen_range(2..4)].to_string()),
+            "cluster-http" => (false, 2, String::new()),
+            _ => (false, 0, String::new()),
+        };
+        ISpec {
+            svc,
+            a,
+            healthy: self.r.gen_bool(0.75),
+            enabled: self.r.gen_bool(0.8),
+            ephemeral: self.r.gen_bool(if origin == "raft" { 0.1 } else { 0.75 }),
+            weight: self.weight(),
+            meta: self.r.gen_range(0..3),
+            from_grpc,
+            from_cluster,
+            client,
+        }
+    }
+    fn tag(&mut self) -> Tag {
+        let x = self.r.gen_range(0..100);
+        if x < 25 {
+            None
+        } else if x < 40 {
+            Some([false; 5])
+        } else if x < 50 {
+            Some([true, true, true, true, false])
+        } else {
+            Some([self.r.gen(), self.r.gen(), self.r.gen(), self.r.gen(), self.r.gen_bool(0.3)])
+        }
+    }
+    /// a concrete operation, biased by what is currently registered (`view`)
+    pub fn op(&mut self, view: &Obs) -> Op {
+        let present: Vec<(SKey, AKey, PInst)> = view.services.iter().flat_map(|(k, p)| p.insts.iter().map(move |(a, i)| (k.clone(), a.clone(), i.clone()))).collect();
+        let x = self.r.gen_range(0..if self.timed { 135 } else { 105 });
+        match x {
+            0..=15 => Op::Update { inst: self.ispec("http"), tag: self.tag() },
+            16..=31 => {
+                let inst = self.ispec("grpc");
+                // half of the gRPC writes use exactly the tag the gRPC handler builds
+                let tag = if self.r.gen_bool(0.5) { Some([inst.weight != 1.0, true, !inst.enabled, false, false]) } else { self.tag() };
+                Op::Update { inst, tag }
+            }
+            32..=36 => {
+                let o = if self.r.gen_bool(0.5) { "cluster-grpc" } else { "cluster-http" };
+                Op::UpdateFromSync { inst: self.ispec(o), tag: self.tag() }
+            }
+            37..=39 => {
+                let o = if self.r.gen_bool(0.5) { "cluster-grpc" } else { "cluster-http" };
+                Op::Update { inst: self.ispec(o), tag: None }
+            }
+            40..=43 => {
+                let n = self.r.gen_range(1..5);
+                Op::UpdateBatch { insts: (0..n).map(|_| { let o = if self.r.gen_bool(0.6) { "cluster-grpc" } else { "cluster-http" }; self.ispec(o) }).collect() }
+            }
+            44..=47 => Op::RaftRegister { inst: self.ispec("raft") },
+            48..=50 => Op::RaftUpdate { inst: self.ispec("raft") },
+            51..=53 => {
+                if let Some((k, a, _)) = self.pick_present(&present, |i| !i.ephemeral) {
+                    Op::RaftRemove { svc: svc_of(&k), a: addr_of(&a) }
+                } else {
+                    Op::RaftRemove { svc: self.svc(), a: self.addr() }
+                }
+            }
+            54..=66 => Op::Delete { inst: self.delete_spec(&present) },
+            67..=69 => {
+                let n = self.r.gen_range(1..4);
+                Op::DeleteBatch { insts: (0..n).map(|_| self.delete_spec(&present)).collect() }
+            }
+            70..=74 => Op::RemoveClient { client: CLIENTS[self.r.gen_range(0..2)].to_string() },
+            75..=77 => Op::RemoveClientFromCluster { client: CLIENTS[self.r.gen_range(1..4)].to_string() },
+            78 => Op::RemoveClientsFromCluster { clients: vec![CLIENTS[2].to_string(), CLIENTS[3].to_string()] },
+            79..=80 => {
+                let ns = self.r.gen_range(0..3);
+                let services = (0..ns).map(|_| (self.svc(), if self.r.gen_bool(0.5) { Some(0.5) } else { None })).collect();
+                let ni = self.r.gen_range(0..5);
+                Op::ReceiveSnapshot { services, insts: (0..ni).map(|_| { let o = if self.r.gen_bool(0.5) { "cluster-grpc" } else { "cluster-http" }; self.ispec(o) }).collect() }
+            }
+            81..=83 => {
+                let len = self.r.gen_range(1..4);
+                Op::RefreshRange { index: self.r.gen_range(0..len), len }
+            }
+            84..=85 => {
+                // what node 2 says its clients own: the current view with some keys dropped / invented
+                let mut data = vec![];
+                for c in &CLIENTS[2..4] {
+                    if self.r.gen_bool(0.8) {
+                        let mut keys: Vec<(Svc, usize)> = view.clients.get(*c).map(|l| l.iter().map(|(k, a)| (svc_of(k), addr_of(a))).collect()).unwrap_or_default();
+                        keys.retain(|_| self.r.gen_bool(0.6));
+                        if self.r.gen_bool(0.4) {
+                            keys.push((self.svc(), self.addr()));
+                        }
+                        data.push((c.to_string(), keys));
+                    }
+                }
+                if self.r.gen_bool(0.2) {
+                    data.push((CLIENTS[0].to_string(), vec![]));
+                }
+                Op::DiffDistro { cluster_id: 2, data }
+            }
+            86..=89 => {
+                let a = self.addr();
+                let n = self.r.gen_range(1..3);
+                Op::Sniff { a, services: (0..n).map(|_| self.svc()).collect(), success: self.r.gen_bool(0.5) }
+            }
+            90..=92 => Op::UpdateService { svc: self.svc(), threshold: if self.r.gen_bool(0.7) { Some(*crate::util::pick(&mut self.r, &[0.0f32, 0.3, 0.8, 1.0])) } else { None }, from_cluster: self.r.gen_bool(0.3) },
+            93..=96 => {
+                // prefer services that exist and are empty
+                let empties: Vec<Svc> = view.services.iter().filter(|(_, p)| p.insts.is_empty()).map(|(k, _)| svc_of(k)).collect();
+                if !empties.is_empty() && self.r.gen_bool(0.6) {
+                    Op::RemoveService { svc: empties[self.r.gen_range(0..empties.len())] }
+                } else {
+                    Op::RemoveService { svc: self.svc() }
+                }
+            }
+            97..=99 => Op::Peek,
+            100 => Op::InitMeta { svc: self.svc(), addrs: vec![self.addr(), self.addr()] },
+            101..=104 => {
+                // heartbeat of something registered over HTTP
+                if let Some((k, a, i)) = self.pick_present(&present, |i| !i.from_grpc) {
+                    Op::Update { inst: ISpec { svc: svc_of(&k), a: addr_of(&a), healthy: true, enabled: true, ephemeral: i.ephemeral, weight: 1.0, meta: 0, from_grpc: false, from_cluster: 0, client: String::new() }, tag: Some([false; 5]) }
+                } else {
+                    Op::Update { inst: self.ispec("http"), tag: Some([false; 5]) }
+                }
+            }
+            105..=122 => Op::Sleep { ms: *crate::util::pick(&mut self.r, &[150u64, 300, 600, 900, 1300, 2100]) },
+            123..=128 => Op::Peek,
+            _ => {
+                if let Some((k, a, i)) = self.pick_present(&present, |i| i.timeout_enabled()) {
+                    Op::Update { inst: ISpec { svc: svc_of(&k), a: addr_of(&a), healthy: true, enabled: true, ephemeral: i.ephemeral, weight: 1.0, meta: 0, from_grpc: false, from_cluster: 0, client: String::new() }, tag: Some([false; 5]) }
+                } else {
+                    Op::Peek
+                }
+            }
+        }
+    }
+    fn pick_present(&mut self, present: &[(SKey, AKey, PInst)], pred: impl Fn(&PInst) -> bool) -> Option<(SKey, AKey, PInst)> {
+        let c: Vec<&(SKey, AKey, PInst)> = present.iter().filter(|(_, _, i)| pred(i)).collect();
+        if c.is_empty() {
+            None
+        } else {
+            Some(c[self.r.gen_range(0..c.len())].clone())
+        }
+    }
+    fn delete_spec(&mut self, present: &[(SKey, AKey, PInst)]) -> ISpec {
+        let mut sp = self.ispec("http");
+        if let Some((k, a, i)) = self.pick_present(present, |_| true) {
+            if self.r.gen_bool(0.8) {
+                sp.svc = svc_of(&k);
+                sp.a = addr_of(&a);
+                let x = self.r.gen_range(0..100);
+                sp.client = if x < 45 {
+                    i.client.clone() // matching (possibly empty)
+                } else if x < 75 {
+                    let others: Vec<&&str> = CLIENTS.iter().filter(|c| **c != i.client.as_str()).collect();
+                    others[self.r.gen_range(0..others.len())].to_string() // foreign
+                } else {
+                    String::new() // empty
+                };
+                sp.from_grpc = !sp.client.is_empty();
+                sp.from_cluster = if sp.client.starts_with("2_") { 2 } else { 0 };
+                return sp;
+            }
+        }
+        if self.r.gen_bool(0.5) {
+            sp.client = CLIENTS[self.r.gen_range(0..4)].to_string();
+        }
+        sp
+    }
+}
+
+pub fn svc_of(k: &SKey) -> Svc {
+    Svc { ns: NS.iter().position(|x| *x == k.0).unwrap_or(0), g: GROUPS.iter().position(|x| *x == k.1).unwrap_or(0), s: SVCS.iter().position(|x| *x == k.2).unwrap_or(0) }
+}
+pub fn addr_of(a: &AKey) -> usize {
+    ADDRS.iter().position(|x| x.0 == a.0 && x.1 == a.1).unwrap_or(0)
+}
+
+pub fn prior_class(prev: &Obs, op: &Op) -> String {
+    match op.target() {
+        Some((svc, a)) => {
+            let ak = (ADDRS[a].0.to_string(), ADDRS[a].1);
+            match prev.services.get(&svc.name()).and_then(|p| p.insts.get(&ak)) {
+                Some(i) => i.class(),
+                None => "absent".to_string(),
+            }
+        }
+        None => "multi".to_string(),
+    }
+}
+
+// ---------------------------------------------------------------- one history
+pub struct HistOut {
+    pub ops: Vec<Op>,
+    pub steps: u64,
+    pub shapes: BTreeMap<String, u64>,
+    pub counters: BTreeMap<String, u64>,
+    /// (mirror, dir, index of the op after which it was first seen, details)
+    pub failure: Option<(String, String, usize, Value)>,
+    pub harness_error: Option<String>,
+}
+
+fn bump(m: &mut BTreeMap<String, u64>, k: &str, n: u64) {
+    *m.entry(k.to_string()).or_insert(0) += n;
+}
+
+/// what happened to the registry between two observations, for the evidence counters
+fn effects(prev: &Obs, cur: &Obs, op: &Op, c: &mut BTreeMap<String, u64>) -> bool {
+    let mut changed = false;
+    let passive = matches!(op, Op::Peek | Op::Sleep { .. });
+    for (k, ps) in &prev.services {
+        match cur.services.get(k) {
+            None => {
+                changed = true;
+                bump(c, if passive { "empty_service_dropped_by_timer" } else { "empty_service_removed_by_request" }, 1);
+            }
+            Some(cs) => {
+                for (a, i) in &ps.insts {
+                    match cs.insts.get(a) {
+                        None => {
+                            changed = true;
+                            if passive {
+                                bump(c, "instance_removed_by_timeout", 1);
+                            } else {
+                                bump(c, "instance_removed", 1);
+                                if i.timeout_enabled() {
+                                    bump(c, "expiry_armed_key_removed_before_expiry", 1);
+                                }
+                            }
+                        }
+                        Some(j) => {
+                            if i.healthy != j.healthy {
+                                changed = true;
+                                if passive && !j.healthy {
+                                    bump(c, "instance_marked_unhealthy_by_timeout", 1);
+                                } else {
+                                    bump(c, "health_flip", 1);
+                                }
+                            }
+                            if i.ephemeral != j.ephemeral {
+                                changed = true;
+                                bump(c, if j.ephemeral { "flip_persistent_to_ephemeral" } else { "flip_ephemeral_to_persistent" }, 1);
+                            }
+                            if i.timeout_enabled() && !j.timeout_enabled() {
+                                bump(c, "expiry_armed_key_replaced_by_non_expiring_instance", 1);
+                            }
+                            if i.client != j.client {
+                                changed = true;
+                                bump(c, "owner_change", 1);
+                            }
+                            if i.enabled != j.enabled {
+                                changed = true;
+                            }
+                        }
+                    }
+                }
+                for a in cs.insts.keys() {
+                    if !ps.insts.contains_key(a) {
+                        changed = true;
+                        bump(c, "instance_added", 1);
+                    }
+                }
+            }
+        }
+    }
+    for k in cur.services.keys() {
+        if !prev.services.contains_key(k) {
+            changed = true;
+            bump(c, "service_created", 1);
+        }
+    }
+    if let Op::Delete { inst } = op {
+        let ak = inst.addr();
+        if let Some(i) = prev.services.get(&inst.svc.name()).and_then(|p| p.insts.get(&ak)) {
+            let still = cur.services.get(&inst.svc.name()).map(|p| p.insts.contains_key(&ak)).unwrap_or(false);
+            if still {
+                bump(c, "delete_refused_foreign_client", 1);
+            } else if inst.client.is_empty() && !i.client.is_empty() {
+                bump(c, "delete_by_empty_client_id_of_owned_instance", 1);
+            } else if inst.client == i.client {
+                bump(c, "delete_by_matching_client_id", 1);
+            } else {
+                bump(c, "delete_of_persistent_instance_by_other_client_id", 1);
+            }
+        } else {
+            bump(c, "delete_of_absent_key", 1);
+        }
+    }
+    changed
+}
+
+pub enum Plan {
+    /// generate `n` operations online
+    Generate { seed: u64, n: usize, budget_ms: u64 },
+    /// replay exactly these
+    Fixed(Vec<Op>),
+}
+
+pub async fn run_history(timed: bool, plan: Plan) -> HistOut {
+    let mut out = HistOut { ops: vec![], steps: 0, shapes: BTreeMap::new(), counters: BTreeMap::new(), failure: None, harness_error: None };
+    let rig = Rig::new(timed).await;
+    let mut prev = match observe(&rig).await {
+        Ok(o) => o,
+        Err(e) => {
+            out.harness_error = Some(format!("{:?}", e));
+            return out;
+        }
+    };
+    let (mut gen, n, fixed, budget_ms) = match plan {
+        Plan::Generate { seed, n, budget_ms } => (Some(Gen::new(seed, timed)), n, vec![], budget_ms),
+        Plan::Fixed(v) => (None, v.len(), v, u64::MAX),
+    };
+    for i in 0..n {
+        if rig.t0.elapsed().as_millis() as u64 > budget_ms {
+            break;
+        }
+        let op = match gen.as_mut() {
+            Some(g) => g.op(&prev),
+            None => fixed[i].clone(),
+        };
+        let kind = op.kind();
+        let pc = prior_class(&prev, &op);
+        out.ops.push(op.clone());
+        if let Err(e) = rig.apply(&op).await {
+            out.harness_error = Some(format!("{}: {:?}", kind, e));
+            return out;
+        }
+        let cur = match observe(&rig).await {
+            Ok(o) => o,
+            Err(e) => {
+                out.harness_error = Some(format!("observe after {}: {:?}", kind, e));
+                return out;
+            }
+        };
+        out.steps += 1;
+        if cur.retries > 0 {
+            bump(&mut out.counters, "observations_repeated_because_the_timer_ran_in_between", 1);
+        }
+        let changed = effects(&prev, &cur, &op, &mut out.counters);
+        bump(&mut out.counters, &format!("op/{}", kind), 1);
+        if let Op::Update { tag: Some(t), .. } | Op::UpdateFromSync { tag: Some(t), .. } = &op {
+            // every InstanceUpdateTag combination (weight, metadata, enabled, ephemeral, from_update) counts as a shape of its own
+            let bits: String = t.iter().map(|b| if *b { '1' } else { '0' }).collect();
+            bump(&mut out.shapes, &format!("update-tag/{}@{}", bits, if pc == "absent" { "absent" } else { "present" }), 1);
+        }
+        let shape = if op.target().is_some() { format!("{}@{}", kind, pc) } else { format!("{}@{}", kind, if changed { "effect" } else { "no-effect" }) };
+        bump(&mut out.shapes, &shape, 1);
+        let fs = check(Some(&prev), &cur);
+        if let Some(f) = fs.first() {
+            // prior class of the instance where the drift shows (single-target operations: the target)
+            let all: Vec<Value> = fs.iter().map(|f| json!({"mirror": f.mirror, "direction": f.dir, "detail": f.detail})).collect();
+            out.failure = Some((f.mirror.to_string(), f.dir.to_string(), i, json!({"op": kind, "prior_state_of_target": pc, "all_drifts_at_this_step": all})));
+            return out;
+        }
+        prev = cur;
+    }
+    // final state: page-by-page listings (does not end or shorten the history; one finding per history at most)
+    let mut walks: anyhow::Result<Vec<Finding>> = Ok(vec![]);
+    let mut page_size = 1;
+    for ps in 1..=3 {
+        page_size = ps;
+        walks = paged_walk(&rig, ps).await;
+        if !matches!(&walks, Ok(v) if v.is_empty()) {
+            break;
+        }
+    }
+    match walks {
+        Ok(fs) => {
+            bump(&mut out.counters, "paged_listing_walks", 1);
+            let nss: BTreeSet<&String> = prev.index.iter().map(|k| &k.0).collect();
+            bump(&mut out.shapes, &format!("paged-walk/page-size-{}/{}-namespaces/{}", page_size, nss.len(), if prev.index.len() > page_size { "several-pages" } else { "one-page" }), 1);
+            if let Some(f) = fs.first() {
+                let all: Vec<Value> = fs.iter().map(|f| json!({"mirror": f.mirror, "direction": f.dir, "detail": f.detail})).collect();
+                out.failure = Some((f.mirror.to_string(), f.dir.to_string(), out.ops.len().saturating_sub(1), json!({"op": "paged-listing-of-final-state", "prior_state_of_target": format!("{}-namespaces-with-services", nss.len().min(2)), "all_drifts_at_this_step": all})));
+            }
+        }
+        Err(e) => out.harness_error = Some(format!("paged walk: {:?}", e)),
+    }
+    out
+}
+
+/// final-state check: walking the service listing page by page must list every indexed service exactly once
+/// (a) per namespace with QueryServicePage, (b) across all namespaces with QueryServiceInfoPage(namespace_id: None)
+pub async fn paged_walk(rig: &Rig, page_size: usize) -> anyhow::Result<Vec<Finding>> {
+    for _ in 0..4 {
+        let before = observe(rig).await?;
+        let f = paged_walk_once(rig, page_size, &before).await?;
+        let after = observe(rig).await?;
+        if before.index == after.index {
+            return Ok(f);
+        }
+    }
+    Ok(vec![])
+}
+
+async fn paged_walk_once(rig: &Rig, page_size: usize, obs: &Obs) -> anyhow::Result<Vec<Finding>> {
+    let mut f = vec![];
+    let indexed: BTreeSet<SKey> = obs.index.iter().cloned().collect();
+    // (a)
+    for ns in NS.iter() {
+        for g in GROUPS.iter() {
+            let want: BTreeSet<String> = indexed.iter().filter(|k| k.0 == *ns && k.1 == *g).map(|k| k.2.clone()).collect();
+            let mut got: Vec<String> = vec![];
+            for page in 1..=(want.len() / page_size + 2) {
+                if let NamingResult::ServicePage((_, names)) = rig.cmd(NamingCmd::QueryServicePage(ServiceKey::new(ns, g, ""), page_size, page)).await? {
+                    got.extend(names.iter().map(|n| n.as_ref().clone()));
+                }
+            }
+            let set: BTreeSet<String> = got.iter().cloned().collect();
+            if set.len() != got.len() {
+                f.push(Finding { mirror: "public/service-page-walk", dir: "listed-twice", svc: None, detail: json!({"namespace": ns, "group": g, "page_size": page_size, "walk": got}) });
+            } else if set != want {
+                f.push(Finding { mirror: "public/service-page-walk", dir: if want.difference(&set).next().is_some() { "service-skipped" } else { "listed-but-not-indexed" }, svc: None, detail: json!({"namespace": ns, "group": g, "page_size": page_size, "walk": got, "indexed": want}) });
+            }
+        }
+    }
+    // (b)
+    let mut got: Vec<SKey> = vec![];
+    let mut total = 0;
+    let pages = indexed.len() / page_size + 2;
+    for page in 0..pages {
+        let param = ServiceQueryParam { namespace_id: None, offset: page * page_size, limit: page_size, ..Default::default() };
+        if let NamingResult::ServiceInfoPage((size, list)) = rig.cmd(NamingCmd::QueryServiceInfoPage(param)).await? {
+            total = size;
+            // ServiceInfoDto carries no namespace: recover it from the index (group, service) -> namespaces, in listing order
+            for d in list {
+                got.push((String::new(), d.group_name.as_ref().clone(), d.service_name.as_ref().clone()));
+            }
+        }
+    }
+    // compare as multisets of (group, service) because the rows do not say which namespace they are from
+    let mut want_ms: BTreeMap<(String, String), i64> = BTreeMap::new();
+    for k in &indexed {
+        *want_ms.entry((k.1.clone(), k.2.clone())).or_insert(0) += 1;
+    }
+    let mut got_ms: BTreeMap<(String, String), i64> = BTreeMap::new();
+    for k in &got {
+        *got_ms.entry((k.1.clone(), k.2.clone())).or_insert(0) += 1;
+    }
+    if total != indexed.len() {
+        f.push(Finding { mirror: "public/service-info-page-all-namespaces", dir: "total-differs-from-index", svc: None, detail: json!({"total": total, "indexed": indexed.len()}) });
+    }
+    if got_ms != want_ms {
+        let skipped: Vec<String> = want_ms.iter().filter(|(k, n)| got_ms.get(*k).cloned().unwrap_or(0) < **n).map(|(k, _)| format!("{}@@{}", k.0, k.1)).collect();
+        let twice: Vec<String> = got_ms.iter().filter(|(k, n)| want_ms.get(*k).cloned().unwrap_or(0) < **n).map(|(k, _)| format!("{}@@{}", k.0, k.1)).collect();
+        let per_ns: BTreeMap<String, usize> = NS.iter().map(|n| (n.to_string(), indexed.iter().filter(|k| k.0 == *n).count())).collect();
+        f.push(Finding {
+            mirror: "public/service-info-page-all-namespaces",
+            dir: if !skipped.is_empty() { "paged-walk-skips-services" } else { "paged-walk-lists-services-twice" },
+            svc: None,
+            detail: json!({"page_size": page_size, "pages_walked": pages, "total_reported": total, "rows_returned": got.len(), "services_per_namespace": per_ns, "skipped": skipped, "listed_too_often": twice}),
+        });
+    }
+    Ok(f)
+}
+
+/// delta-debugging on the operation list: keep a sub-list if a fresh actor shows the same (mirror, direction) drift
+async fn shrink(ops: Vec<Op>, mirror: &str, dir: &str, budget: Duration) -> (Vec<Op>, u32) {
+    let t0 = Instant::now();
+    let mut cur = ops;
+    let mut runs = 0u32;
+    let mut chunk = cur.len() / 2;
+    while chunk >= 1 && t0.elapsed() < budget {
+        let mut i = 0;
+        let mut progressed = false;
+        while i < cur.len() && t0.elapsed() < budget {
+            // never drop the last operation (it is the one that makes the drift visible)
+            let end = (i + chunk).min(cur.len().saturating_sub(1));
+            if end <= i {
+                break;
+            }
+            let mut cand = cur.clone();
+            cand.drain(i..end);
+            runs += 1;
+            let o = run_history(false, Plan::Fixed(cand.clone())).await;
+            let same = matches!(&o.failure, Some((m, d, _, _)) if m == mirror && d == dir);
+            if same {
+                let at = o.failure.as_ref().map(|f| f.2).unwrap_or(cand.len() - 1);
+                cand.truncate(at + 1);
+                cur = cand;
+                progressed = true;
+            } else {
+                i = end;
+            }
+        }
+        if !progressed {
+            chunk /= 2;
+        }
+    }
+    (cur, runs)
+}
+
+/// operation family / prior state class used in violation signatures: coarser than the coverage shapes so that one root
+/// cause (e.g. a counter not adjusted on replace, reachable through every kind of update) maps to a handful of signatures
+pub fn sig_family(kind: &str) -> String {
+    let k = kind.split('/').next().unwrap_or(kind);
+    match k {
+        "update-http" | "update-grpc" => k.to_string(),
+        "update-routed" | "update-sync" | "update-batch" | "receive-snapshot" => "update-from-cluster".into(),
+        "raft-register" | "raft-update" => "raft-write".into(),
+        "delete" | "delete-batch" => "delete".into(),
+        "remove-client" | "remove-client-from-cluster" | "remove-clients-from-cluster" | "diff-distro" => "client-removal".into(),
+        "peek-timeout" | "sleep+timer" => "timeout-tick".into(),
+        "sniff-up" | "sniff-down" => "health-probe".into(),
+        "update-service" | "remove-service" | "init-meta" | "refresh-range" => "service-op".into(),
+        other => other.to_string(),
+    }
+}
+
+pub fn sig_prior(pc: &str) -> String {
+    // healthy-ephemeral-grpc -> healthy-ephemeral
+    let parts: Vec<&str> = pc.split('-').collect();
+    if parts.len() >= 3 && (parts[0] == "healthy" || parts[0] == "unhealthy") {
+        format!("{}-{}", parts[0], parts[1])
+    } else {
+        pc.to_string()
+    }
+}
+
+pub fn signature(mirror: &str, dir: &str, detail: &Value) -> String {
+    let op = detail["op"].as_str().unwrap_or("?");
+    let pc = detail["prior_state_of_target"].as_str().unwrap_or("?");
+    format!("{}/{}/{}@{}", mirror, dir, sig_family(op), sig_prior(pc))
+}
+
+#[allow(dead_code)]
+pub fn signature_fine(mirror: &str, dir: &str, detail: &Value) -> String {
+    format!("{}/{}/{}@{}", mirror, dir, detail["op"].as_str().unwrap_or("?"), detail["prior_state_of_target"].as_str().unwrap_or("?"))
+}
+
+async fn absorb(rep: &mut Report, o: HistOut, label: &str, seed: u64, timed: bool) {
+    rep.evaluations += o.steps;
+    for (k, v) in &o.shapes {
+        *rep.shapes.entry(k.clone()).or_insert(0) += v;
+    }
+    for (k, v) in &o.counters {
+        rep.count(k, *v);
+    }
+    rep.count(&format!("histories/{}", label), 1);
+    if let Some(e) = &o.harness_error {
+        rep.inconclusive.push(format!("{} history seed {}: {}", label, seed, e));
+        return;
+    }
+    if let Some((mirror, dir, at, detail)) = o.failure {
+        let mut ops = o.ops.clone();
+        ops.truncate(at + 1);
+        let mut detail = detail;
+        let mut shrunk_runs = 0;
+        let seen_key = format!("histories_with_drift/{}/{}", mirror, dir);
+        let seen = rep.counters.get(&seen_key).cloned().unwrap_or(0);
+        rep.count(&seen_key, 1);
+        // shrink the first two failures of each (mirror, direction) per process; later ones are classified as they are
+        if !timed && seen < 2 {
+            // full shrinking budget for the first few failures of a process, a short one afterwards (keeps a run with many failures bounded)
+            let budget = if rep.violations.len() < 3 && rep.counters.get("shrunk_failures").cloned().unwrap_or(0) < 4 { 15 } else { 2 };
+            rep.count("shrunk_failures", 1);
+            let (small, runs) = shrink(ops.clone(), &mirror, &dir, Duration::from_secs(budget)).await;
+            shrunk_runs = runs;
+            // classify on the shrunk history
+            let again = run_history(false, Plan::Fixed(small.clone())).await;
+            if let Some((m2, d2, at2, det2)) = again.failure {
+                if m2 == mirror && d2 == dir {
+                    ops = small;
+                    ops.truncate(at2 + 1);
+                    detail = det2;
+                }
+            }
+        }
+        let sig = signature(&mirror, &dir, &detail);
+        rep.violation(sig, json!({"rig": label, "history_seed": seed, "timed": timed, "ops": ops, "first_seen_after_op_index": ops.len() - 1, "detail": detail, "shrink_runs": shrunk_runs,
+            "replay": "vh c11 --replay <this file>"}));
+    } else if rep.samples.len() < 3 {
+        let tail: Vec<&Op> = o.ops.iter().take(12).collect();
+        rep.sample(json!({"rig": label, "history_seed": seed, "steps": o.steps, "first_ops": tail, "verdict": "all mirrors agreed after every step"}), 3);
+    }
+}
+
+/// a scripted long history for the empty-service clean-up done by the actor's own timer (30 s after the service became empty)
+fn long_script(seed: u64) -> Vec<Op> {
+    let mut r = rng(seed);
+    let mut ops = vec![];
+    let all = Svc::all();
+    let a = all[r.gen_range(0..all.len())];
+    let b = all[r.gen_range(0..all.len())];
+    let c = all[r.gen_range(0..all.len())];
+    let mk = |svc: Svc, a: usize, eph: bool, grpc: bool| ISpec { svc, a, healthy: true, enabled: true, ephemeral: eph, weight: 1.0, meta: 0, from_grpc: grpc, from_cluster: 0, client: if grpc { CLIENTS[0].to_string() } else { String::new() } };
+    // a: registered then deleted -> empty at ~0 s -> dropped by the timer at ~30-32 s
+    ops.push(Op::Update { inst: mk(a, 0, true, true), tag: None });
+    ops.push(Op::Update { inst: mk(a, 1, false, false), tag: None });
+    ops.push(Op::Delete { inst: mk(a, 0, true, true) });
+    ops.push(Op::Delete { inst: mk(a, 1, false, false) });
+    // b: HTTP ephemeral without heartbeat -> removed by time-out at ~4-6 s -> dropped ~36 s
+    ops.push(Op::Update { inst: mk(b, 2, true, false), tag: None });
+    // d: a service whose only instances are UNHEALTHY and never expire (gRPC-owned / persistent): its clean-up entry from the
+    // creation runs out at ~30 s while it still has instances -> it must stay
+    let d = all[r.gen_range(0..all.len())];
+    if d != a && d != b {
+        let mut u = mk(d, 3, true, true);
+        u.healthy = false;
+        u.client = CLIENTS[1].to_string();
+        ops.push(Op::Update { inst: u, tag: None });
+        let mut p = mk(d, 4, false, false);
+        p.healthy = false;
+        ops.push(Op::RaftRegister { inst: p });
+    }
+    // c: only created (UpdateService) -> empty from the start
+    ops.push(Op::UpdateService { svc: c, threshold: Some(0.3), from_cluster: false });
+    let variant = seed % 4;
+    let mut t = 0u64;
+    while t < 39_000 {
+        let ms = *crate::util::pick(&mut r, &[700u64, 1100, 1900, 2300]);
+        ops.push(Op::Sleep { ms });
+        t += ms;
+        if r.gen_bool(0.3) {
+            ops.push(Op::Peek);
+        }
+        // variants: re-populate a shortly before the 30 s mark; empty it again; register through a client that is removed
+        if variant == 1 && (24_000..26_500).contains(&t) {
+            ops.push(Op::Update { inst: mk(a, 3, true, true), tag: None });
+        }
+        if variant == 2 && (15_000..17_500).contains(&t) {
+            ops.push(Op::Update { inst: mk(a, 3, true, true), tag: None });
+            ops.push(Op::RemoveClient { client: CLIENTS[0].to_string() });
+        }
+        if variant == 3 && (27_000..29_500).contains(&t) {
+            ops.push(Op::Update { inst: mk(c, 4, false, false), tag: None });
+        }
+    }
+    ops
+}
+
+pub fn run(args: &Args) -> anyhow::Result<()> {
+    let seed = args.u64("seed", 1);
+    let n_fast = args.u64("fast", 20);
+    let n_ops = args.u64("ops", 200) as usize;
+    let n_timed = args.u64("timed", 6);
+    let n_long = args.u64("long", 2);
+    let timed_ms = args.u64("timed-ms", 13_000);
+    let sys = actix_rt::System::new();
+    let mut rep = Report::default();
+    if let Some(path) = args.get("replay") {
+        let w: Value = serde_json::from_str(&std::fs::read_to_string(path)?)?;
+        let w = if w.get("witness").is_some() { w["witness"].clone() } else { w };
+        let ops: Vec<Op> = serde_json::from_value(w["ops"].clone())?;
+        let timed = w["timed"].as_bool().unwrap_or(false);
+        let o = sys.block_on(run_history(timed, Plan::Fixed(ops)));
+        match (&o.failure, &o.harness_error) {
+            (_, Some(e)) => println!("REPLAY harness-error {}", e),
+            (Some((m, d, at, det)), _) => println!("REPLAY reproduced signature={} after-op-index={} detail={}", signature(m, d, det), at, det),
+            _ => println!("REPLAY not-reproduced steps={}", o.steps),
+        }
+        return Ok(());
+    }
+    sys.block_on(async {
+        let fast = async {
+            let mut outs = vec![];
+            for i in 0..n_fast {
+                let hs = seed.wrapping_mul(1_000_003).wrapping_add(i);
+                outs.push((hs, run_history(false, Plan::Generate { seed: hs, n: n_ops, budget_ms: u64::MAX }).await));
+            }
+            outs
+        };
+        let timed = futures_util::future::join_all((0..n_timed).map(|i| {
+            let hs = seed.wrapping_mul(1_000_003).wrapping_add(500_000 + i);
+            async move { (hs, run_history(true, Plan::Generate { seed: hs, n: 400, budget_ms: timed_ms }).await) }
+        }));
+        let long = futures_util::future::join_all((0..n_long).map(|i| {
+            let hs = seed.wrapping_mul(1_000_003).wrapping_add(900_000 + i);
+            async move { (hs, run_history(true, Plan::Fixed(long_script(hs))).await) }
+        }));
+        let (f, t, l) = futures_util::future::join3(fast, timed, long).await;
+        for (hs, o) in f {
+            absorb(&mut rep, o, "untimed", hs, false).await;
+        }
+        for (hs, o) in t {
+            absorb(&mut rep, o, "timed", hs, true).await;
+        }
+        for (hs, o) in l {
+            absorb(&mut rep, o, "long-timer", hs, true).await;
+        }
+    });
+    rep.write(args)
 }
